@@ -7,6 +7,7 @@ each parameter is stored into and how (plain / `p if p is not None else q` / `..
 sorted(set()) / SegmentationClassGroups' dict building), (d) enum member names, and the (de)serialisation scheme of
 SupportsConfig and _Enum_Compare.  Anything outside the recognised statement forms raises Refuse (fail closed)."""
 import ast
+from harness.translate.normalize import canon_stmt_text
 from fractions import Fraction
 
 from harness.translate.main import unit, parse
@@ -373,7 +374,7 @@ def init_table(w, name):
                     done = True
             if done:
                 continue
-            if name == "SegmentationClassGroups" and ast.unparse(s) == GROUPS_BLOCK and not groups_done:
+            if name == "SegmentationClassGroups" and ast.unparse(s) == canon_stmt_text(GROUPS_BLOCK, "self, groups") and not groups_done:
                 groups_done = True
                 put("groups", mangle(owner, "__group_dictionary"), "KGroups")
                 continue
